@@ -36,7 +36,7 @@ class Box(nn.Module):
 
 
 LEAVES = ['Lin', 'LinNB', 'SubLin', 'LinChild', 'Conv2d', 'Conv1d', 'ReLU',
-          'Frozen', 'HalfFrozen', 'Shared', 'Emb', 'BN', 'NoneSlot']
+          'Frozen', 'HalfFrozen', 'Shared', 'Emb', 'BN', 'NoneSlot', 'TiedF']
 CONTAINERS = ['Seq', 'Dict', 'Box']
 
 
@@ -68,11 +68,24 @@ def mk_leaf(kind, shared):
         return m
     if kind == 'Shared':
         return shared
+    if kind == 'TiedF':
+        # distinct instances sharing one frozen weight parameter (tied
+        # weights): named_parameters() reports it under the first owner only
+        m = nn.Linear(3, 2)
+        m.weight = tied_of(shared)
+        return m
     if kind == 'Emb':
         return nn.Embedding(4, 2)
     if kind == 'BN':
         return nn.BatchNorm2d(2)
     raise AssertionError(kind)
+
+
+def tied_of(shared):
+    if '_vf_tied' not in shared.__dict__:
+        shared.__dict__['_vf_tied'] = nn.Parameter(torch.zeros(2, 3),
+                                                   requires_grad=False)
+    return shared.__dict__['_vf_tied']
 
 
 def build(tree, shared):
@@ -197,7 +210,7 @@ class RowParallelLinear(nn.Linear):
 
 
 GPT_LEAVES = ['Col', 'Row', 'Lin', 'FrozenCol', 'ReLU', 'SharedRow',
-              'HalfFrozenRow']
+              'HalfFrozenRow', 'TiedFRow']
 GPT_SKIPS = [(), ('column',), ('Column',), ('parallel',), ('^0$',),
              ('ColumnParallelLinear',), (r'\.1$', 'row'), ('a|x',),
              ('linear$',)]
@@ -221,6 +234,10 @@ def gpt_leaf(kind, shared):
         return m
     if kind == 'ReLU':
         return nn.ReLU()
+    if kind == 'TiedFRow':
+        m = RowParallelLinear(3, 2)
+        m.weight = tied_of(shared)
+        return m
     return shared
 
 
@@ -321,10 +338,10 @@ def main(run: core.Run):
     run.c['transitions'] = run.c.get('evaluations', 0)
     run.c['distinct_nontrivial'] = len(run.distinct.get('nontrivial', ()))
     run.rule = (
-        f'every module tree with <= {maxn} nodes over 13 leaf kinds (Linear '
+        f'every module tree with <= {maxn} nodes over 14 leaf kinds (Linear '
         '+/- bias, Linear subclasses with and without a child, Conv2d, '
         'Conv1d, Embedding, BatchNorm2d, ReLU, frozen and half-frozen Linear,'
-        ' one shared instance mounted repeatedly) and 3 container kinds x '
+        ' one shared instance mounted repeatedly, distinct instances tied to one frozen weight) and 3 container kinds x '
         f'{len(skips)} skip-pattern lists; registered (name, instance) set '
         'compared with an independent pre-order walk; hook counts on every '
         'module; non-trivial = at least one registered and one unregistered '
